@@ -15,6 +15,7 @@ type scheme struct {
 	Mismatch float64 `json:"mismatch"`
 	Open     float64 `json:"open"`   // score of the first gap column of a run
 	Extend   float64 `json:"extend"` // score of every further gap column of the run
+	Inexact  bool    `json:"not_exactly_representable,omitempty"`
 }
 
 // EDNAFULL / NUC.4.4 as distributed with EMBOSS (goalign adds a U column and row equal to T).
